@@ -177,7 +177,48 @@ Qed.
    underlying arrays returns the same buffers in the same final store, and each
    returned element is a NumpyTensor over that buffer in a space whose shape
    and dtype are the buffer's. *)
+Lemma forallb_valid_nones k : forallb (@tens_valid_out T) (repeat None k) = true.
+Proof. induction k; cbn; auto. Qed.
+Lemma pad_none_nones {A} n k : (k = 0 \/ k = n)%nat -> @pad_none A n (repeat None k) = repeat None n.
+Proof.
+  unfold pad_none. rewrite repeat_length. intros [->| ->]; cbn.
+  - rewrite Nat.sub_0_r. reflexivity.
+  - rewrite Nat.sub_diag. cbn. apply app_nil_r.
+Qed.
+
+(* out absent, or out=(None, ..., None) *)
+Lemma tens_call_sound_gen (NP : npsem) (st : store) sp nout k ins kw rins rets st' :
+  (k = 0 \/ k = nout)%nat ->
+  map_opt tens_unwrap ins = Some rins ->
+  tens_ufunc cast NP st sp nout MCall ins kw (repeat None k) = Ok (rets, st') ->
+  exists rrets,
+    raw_ufunc cast NP st MCall kw rins (repeat None nout) = Ok (rrets, st')
+    /\ Forall2 (wraps_tens st' sp) rets rrets.
+Proof.
+  intros Hk Hu Ht. unfold tens_ufunc in Ht. rewrite repeat_length in Ht.
+  destruct (negb (len_ok MCall nout k)); try discriminate.
+  rewrite forallb_valid_nones in Ht. cbn [negb] in Ht.
+  rewrite Hu in Ht. cbn [is_call] in Ht.
+  destruct (negb ((nout =? 1)%nat || (nout =? 2)%nat)); try discriminate.
+  rewrite (pad_none_nones nout k Hk), enter_all_none in Ht.
+  destruct (raw_ufunc cast NP st MCall kw rins (repeat None nout)) as [[rrets st2]|] eqn:Er; try discriminate.
+  rewrite exit_all_none in Ht.
+  destruct (wrap_call st2 sp nout (repeat None nout) rrets) as [l|] eqn:Ew; try discriminate.
+  inversion Ht; subst. exists rrets. split; auto.
+  apply wrap_call_none in Ew as [HF2 _]. exact HF2.
+Qed.
+
 Lemma tens_call_sound (NP : npsem) (st : store) sp nout ins kw rins rets st' :
+  map_opt tens_unwrap ins = Some rins ->
+  tens_ufunc cast NP st sp nout MCall ins kw [] = Ok (rets, st') ->
+  exists rrets,
+    raw_ufunc cast NP st MCall kw rins (repeat None nout) = Ok (rrets, st')
+    /\ Forall2 (wraps_tens st' sp) rets rrets.
+Proof.
+  intros Hu Ht. apply (tens_call_sound_gen NP st sp nout 0 ins kw rins rets st'); auto.
+Qed.
+
+Lemma tens_call_sound_old (NP : npsem) (st : store) sp nout ins kw rins rets st' :
   map_opt tens_unwrap ins = Some rins ->
   tens_ufunc cast NP st sp nout MCall ins kw [] = Ok (rets, st') ->
   exists rrets,
@@ -245,6 +286,36 @@ Lemma meth_space_shape sp (r : @narr T) : ts_shape (meth_space sp r) = a_shape r
 Proof. unfold meth_space. destruct (is_floating _); [destruct (shape_eqb _ _)|]; reflexivity. Qed.
 Lemma meth_space_dt sp (r : @narr T) : ts_dt (meth_space sp r) = a_dt r.
 Proof. unfold meth_space. destruct (is_floating _); [destruct (shape_eqb _ _)|]; reflexivity. Qed.
+
+Lemma tens_meth_sound_gen (NP : npsem) (st : store) sp nout m ins kw rins outs rets st' :
+  is_call m = false ->
+  (outs = [] \/ outs = [None]) ->
+  map_opt tens_unwrap ins = Some rins ->
+  tens_ufunc cast NP st sp nout m ins kw outs = Ok (rets, st') ->
+  exists rr,
+    raw_ufunc cast NP st m kw rins (if is_at m then [] else [None]) = Ok ([rr], st')
+    /\ exists r, rets = [r] /\ wraps_meth st' r rr.
+Proof.
+  intros Hm Ho Hu Ht. unfold tens_ufunc in Ht.
+  assert (Hlen : len_ok m nout (length outs) = true)
+    by (unfold len_ok; rewrite Hm; destruct Ho; subst; reflexivity).
+  rewrite Hlen in Ht. cbn [negb] in Ht.
+  assert (Hval : forallb (@tens_valid_out T) outs = true) by (destruct Ho; subst; reflexivity).
+  rewrite Hval in Ht. cbn [negb] in Ht. rewrite Hu, Hm in Ht.
+  assert (Hout : match outs with [Some o] => Some o | _ => None end = None)
+    by (destruct Ho; subst; reflexivity).
+  rewrite Hout in Ht.
+  destruct (raw_ufunc cast NP st m kw rins (if is_at m then [] else [None])) as [[rrets st2]|] eqn:Er;
+    try discriminate.
+  destruct rrets as [|rr [|rr2 rrets]]; try discriminate.
+  2:{ destruct rr; discriminate. }
+  exists rr. destruct rr as [id|v|].
+  - destruct (ts_valid (meth_space sp (rd st2 id))) eqn:Ev; try discriminate.
+    inversion Ht; subst. split; auto. eexists; split; [reflexivity|].
+    cbn. eexists; split; [reflexivity|]. split; [apply meth_space_shape | apply meth_space_dt].
+  - inversion Ht; subst. split; auto. eexists; split; reflexivity.
+  - inversion Ht; subst. split; auto. eexists; split; reflexivity.
+Qed.
 
 Lemma tens_meth_sound (NP : npsem) (st : store) sp nout m ins kw rins rets st' :
   is_call m = false ->
